@@ -2737,17 +2737,10 @@ TYPING_OVERLAY = "pytype/overlays/typing_overlay.py"
 _NEWTYPE_COUNTER = ("    val = self._internal_name_counter\n"
                     "    self._internal_name_counter += 1\n    return val\n")
 _BUILTIN_STUBS = "pytype/imports/builtin_stubs.py"
-# drops the process-wide builtins cache (reported by R4.8 on the reference tree)
-_NO_BUILTINS_CACHE = [
-    (_BUILTIN_STUBS, "_cached_builtins_pytd = []\n", ""),
-    (_BUILTIN_STUBS, "  if _cached_builtins_pytd:\n    del _cached_builtins_pytd[0]\n",
-     "  pass\n"),
-    (_BUILTIN_STUBS,
-     "  if not _cached_builtins_pytd:\n"
-     "    _cached_builtins_pytd.append(BuiltinsAndTyping().load(options))\n"
-     "  return _cached_builtins_pytd[0]\n",
-     "  return BuiltinsAndTyping().load(options)\n"),
-]
+# (was: edits that dropped the process-wide builtins cache, which R4.8 reported
+# on the reference tree; since the cache is keyed by the options - D48, R4.9 -
+# it is a triaged holder and the twins below apply to the tree as it is)
+_NO_BUILTINS_CACHE = []
 
 _FORMSET_LOOP = ("      for compat, name in pep484.get_compat_items():\n"
                  "        # name can replace compat.\n"
